@@ -27,7 +27,11 @@ impl MessageBatch {
     }
 
     pub fn exceeded_interval(&self, now: Instant) -> bool {
-        now >= self.last_run + self.config.interval
+        // `Instant + Duration` panics on overflow, and the interval is user-provided
+        match self.last_run.checked_add(self.config.interval) {
+            Some(deadline) => now >= deadline,
+            None => false,
+        }
     }
 
     pub fn exceeded_batch_size(&self) -> bool {
